@@ -154,6 +154,10 @@ def zoo():
     z["Quantity empty"] = lambda: Quantity.CreateEmpty()
     z["Quantity unknown"] = lambda: GetUnknownQuantity()
     z["Quantity unknown caption"] = lambda: GetUnknownQuantity("cap")
+    z["Quantity known unit with caption"] = lambda: ObtainQuantity("m", "length", "label")
+    z["Quantity known unit with another caption"] = lambda: ObtainQuantity("m", "length", "other label")
+    z["Quantity derived with caption"] = lambda: Quantity.CreateDerived(OrderedDict([("length", ["m", 2]), ("time", ["s", -1])]), unknown_unit_caption="label")
+    z["Scalar known unit with caption"] = lambda: Scalar(ObtainQuantity("m", "length", "label"), 1.0)
     z["Scalar simple"] = lambda: Scalar(1.0, "m", "length")
     z["Scalar simple again"] = lambda: Scalar(1.0, "m", "length")
     z["Scalar other value"] = lambda: Scalar(2.0, "m", "length")
